@@ -30,7 +30,7 @@ import (
 // ---------------------------------------------------------------- data
 
 type Op struct {
-	Kind string `json:"kind"` // set | up | down
+	Kind string `json:"kind"` // set | up | down | getfail | hangup
 	Text string `json:"text,omitempty"`
 }
 
@@ -193,6 +193,50 @@ func handleGarbage(dev *device.Device, what string) string {
 			return "answered " + strconv.Quote(got.String())
 		}
 	}
+}
+
+// failWriter is an io.Writer whose peer has gone away.
+type failWriter struct{}
+
+func (failWriter) Write(p []byte) (int, error) { return 0, errors.New("client went away") }
+
+// undeliveredGet performs a get whose output cannot be delivered -- directly
+// (IpcGetOperation on a failing writer) or through IpcHandle with a client that
+// sends get=1 and hangs up without reading -- immediately followed, on the same
+// goroutine (IpcGetOperation keeps its buffer in a sync.Pool, which is per P), by
+// an ordinary get.  Several rounds; the longest ordinary get text is returned
+// (anything left over from the undelivered one makes it longer) together with
+// the errno of the failing IpcGetOperation calls.
+func undeliveredGet(dev *device.Device, hangup bool) (text string, errno int64, notes []string) {
+	rounds := 20
+	if hangup {
+		rounds = 6
+	}
+	for r := 0; r < rounds; r++ {
+		if hangup {
+			cl, sv := net.Pipe()
+			go func() {
+				cl.Write([]byte("get=1\n\n"))
+				cl.Close()
+			}()
+			dev.IpcHandle(sv) // returns once the client is gone
+		} else {
+			e := errnoOf(dev.IpcGetOperation(failWriter{}))
+			if r == 0 {
+				errno = e
+			} else if e != errno {
+				notes = append(notes, fmt.Sprintf("failing-get-errno-varies %d %d", errno, e))
+			}
+		}
+		t, err := dev.IpcGet()
+		if err != nil {
+			notes = append(notes, "get-after-undelivered-get: "+err.Error())
+		}
+		if r == 0 || len(t) > len(text) {
+			text = t
+		}
+	}
+	return
 }
 
 var configKeys = map[string]bool{"private_key": true, "listen_port": true, "fwmark": true, "public_key": true,
@@ -391,6 +435,7 @@ func runCase(c *Case) {
 	c.Anomaly = nil
 	for i, op := range c.Ops {
 		var errno int64
+		var undeliveredText string
 		ok := true
 		switch op.Kind {
 		case "up":
@@ -403,6 +448,14 @@ func runCase(c *Case) {
 			ok = withWatchdog(func() {
 				if dev.Down() != nil {
 					errno = -1
+				}
+			})
+		case "getfail", "hangup":
+			ok = withWatchdog(func() {
+				var notes []string
+				undeliveredText, errno, notes = undeliveredGet(dev, op.Kind == "hangup")
+				for _, n := range notes {
+					c.Anomaly = append(c.Anomaly, fmt.Sprintf("op%d %s", i, n))
 				}
 			})
 		default:
@@ -421,7 +474,7 @@ func runCase(c *Case) {
 		}
 		if !ok {
 			what := op.Kind
-			if op.Kind == "set" {
+			if op.Kind == "set" || op.Kind == "" {
 				what = hangWhat(op.Text)
 			}
 			c.Hang = &Hang{i, what}
@@ -431,7 +484,9 @@ func runCase(c *Case) {
 		}
 		var text string
 		var gerr error
-		if c.Transport == "handle" {
+		if op.Kind == "getfail" || op.Kind == "hangup" {
+			text = undeliveredText
+		} else if c.Transport == "handle" {
 			text, gerr = handleGet(dev)
 		} else {
 			text, gerr = dev.IpcGet()
@@ -644,6 +699,10 @@ func gallina(c Case) string {
 			ops = append(ops, "OUp")
 		case "down":
 			ops = append(ops, "ODown")
+		case "getfail":
+			ops = append(ops, "OGetFail")
+		case "hangup":
+			ops = append(ops, "OHangup")
 		default:
 			var ls []string
 			for _, l := range scanLines(op.Text) {
@@ -971,6 +1030,10 @@ func genCase(r *rand.Rand) Case {
 			c.Ops = append(c.Ops, Op{Kind: "up"})
 		case x < 10:
 			c.Ops = append(c.Ops, Op{Kind: "down"})
+		case x < 15:
+			c.Ops = append(c.Ops, Op{Kind: "getfail"})
+		case x < 18:
+			c.Ops = append(c.Ops, Op{Kind: "hangup"})
 		default:
 			c.Ops = append(c.Ops, Op{Kind: "set", Text: p.setText()})
 		}
@@ -1039,6 +1102,18 @@ func directed() []Case {
 	add("d-too-long", set("listen_port=1", "foo="+strings.Repeat("x", 70000), "listen_port=2"), set("listen_port=3"))
 	add("d-zero-private-key", set("public_key="+p0, "public_key="+zeroKey, "allowed_ip=10.0.0.0/8"), set("private_key="+zeroKey), set("private_key="+priv1, "public_key="+zeroKey, "allowed_ip=10.0.0.0/8"),
 		set("private_key="+priv1), set("private_key="+strings.ToUpper(priv1)))
+	// a get whose output cannot be delivered must not leak into later gets
+	getfail, hangup := Op{Kind: "getfail"}, Op{Kind: "hangup"}
+	add("d-getfail", getfail, set("private_key="+priv1, "listen_port=51820", "public_key="+pA, "allowed_ip=10.0.0.0/8"), getfail,
+		set("replace_peers=true", "public_key="+pB, "allowed_ip=10.0.0.0/8"), getfail, set("public_key="+pB, "remove=true"), getfail, set("private_key="+zeroKey, "listen_port=0"), getfail)
+	add("d-getfail-peers-only", set("public_key="+pA, "allowed_ip=10.0.0.0/8"), getfail, set("replace_peers=true", "public_key="+pB), getfail)
+	var many []string
+	many = append(many, "private_key="+priv2, "replace_peers=true")
+	for i := 0; i < 24; i++ { // more than the 4096 bytes IpcHandle buffers
+		many = append(many, fmt.Sprintf("public_key=%064x", 0x1000+i), fmt.Sprintf("allowed_ip=10.%d.0.0/16", i))
+	}
+	add("d-hangup-large-get", set(many...), hangup, set("replace_peers=true", "public_key="+pA), hangup, set("fwmark=3"), hangup, getfail)
+	add("d-hangup-small-get", set("listen_port=5", "public_key="+pA), hangup, set("public_key="+pA, "remove=true"), hangup)
 	// candidate defect: a device whose private key was cleared answers to pub(0); a peer with the
 	// all-zero public key is then a real peer, but a fresh device (no key at all) ignores that key.
 	add("d-roundtrip-zero-pubkey", set("private_key="+priv1), set("private_key="+zeroKey), set("public_key="+zeroKey, "allowed_ip=10.0.0.0/8"))
